@@ -91,3 +91,35 @@ PROPS['C04'] = dict(
           [dict(name='userterm_n6', harness='h_presets', defs=['CASE=7', 'NOPS=6'], split={'sel': R(16)}, tiers=[T],
                 witnesses=['prepared', 'done'])],
 )
+
+PROPS['C05'] = dict(
+    claim='The real Operator algebra (normalize_and_insert, +=, -=, *=, ==, commutes, actRight) and the N / Sz shortcuts are '
+          'executed symbolically: operator strings are symbolic (every creation/annihilation pattern and mode assignment inside '
+          'the bound is a solver-enumerated fork), coefficients are symbolic reals; all results are compared with '
+          'Jordan-Wigner reference matrices.',
+    bounds={Q: '3 modes: monomials of length <= 3 (actRight), products of monomials with 2+2 factors, associativity 1+1+1; '
+               '6 monomial pair sets with symbolic coefficients; N/Sz over 4 modes with all up/down index subsets',
+            T: 'products 3+2 and 2+3 factors, associativity 2+1+1, actRight length 4 over 4 modes'},
+    assumptions=['coefficients are exactly 0 or at least 1e-9 in modulus (outside the erase band of 100*epsilon)',
+                 'double read as exact real'],
+    outside=['longer monomials / more modes than the bound', 'coefficients inside the erase band'],
+    units=[dict(name='actright_len%d' % l, harness='h_operator', defs=['MODE=1', 'LEN=%d' % l, 'MODES=3'],
+                split={'f0': R(6)} if l > 1 else None, witnesses=['done', 'annihilated', 'negative_sign'] if l > 1 else ['done', 'annihilated'],
+                validate=[{'f0': 4, 'f1': 1, 'f2': 2}]) for l in (1, 2, 3)] +
+          [dict(name='product_2x2', harness='h_operator', defs=['MODE=2', 'LA=2', 'LB=2', 'MODES=3'], split={'a0': R(6), 'a1': R(6)},
+                witnesses=['done', 'nonzero_product', 'vanishing_product', 'contraction_produced_two_monomials'],
+                validate=[{'a0': 3, 'a1': 1, 'b0': 0, 'b1': 4}]),
+           dict(name='product_assoc_111', harness='h_operator', defs=['MODE=2', 'LA=1', 'LB=1', 'LC=1', 'MODES=3'], split={'a0': R(6)},
+                witnesses=['done', 'nonzero_product']),
+           dict(name='product_3x2', harness='h_operator', defs=['MODE=2', 'LA=3', 'LB=2', 'MODES=3'], tiers=[T],
+                split={'a0': R(6), 'a1': R(6), 'a2': R(6)}, witnesses=['done', 'nonzero_product']),
+           dict(name='product_assoc_211', harness='h_operator', defs=['MODE=2', 'LA=2', 'LB=1', 'LC=1', 'MODES=3'], tiers=[T],
+                split={'a0': R(6), 'a1': R(6)}, witnesses=['done', 'nonzero_product']),
+           dict(name='actright_len4_m4', harness='h_operator', defs=['MODE=1', 'LEN=4', 'MODES=4'], tiers=[T],
+                split={'f0': R(8), 'f1': R(8)}, witnesses=['done', 'annihilated', 'negative_sign'])] +
+          [dict(name='coeffs_set%d' % p, harness='h_operator', defs=['MODE=3', 'PAIRSET=%d' % p, 'MODES=3'], max_loop=50000,
+                witnesses=['done', 'different_pair'], validate=[{}]) for p in range(6)] +
+          [dict(name='n_sz_m4', harness='h_operator', defs=['MODE=4', 'MODES=4'], split={'upmask': R(16)},
+                witnesses=['done', 'sz_constructed', 'partial_coverage', 'sz_onelist_constructed'],
+                validate=[{'upmask': 5, 'dnmask': 10}, {'upmask': 1, 'dnmask': 4}])],
+)
